@@ -338,7 +338,7 @@ impl<'a> World<'a> {
                     _ => {}
                 },
                 Ok(_) => {}
-                Err(Malformed::UnknownMandatory(_)) => {
+                Err(Malformed::UnknownMandatory(_)) | Err(Malformed::ExtTruncated) => {
                     // label field precedes the extensions: well-formed start packet whose label we can read
                     if let Some((k, lt, gl)) = hdr {
                         let off = if k == Kind::First { 7 } else { 4 };
@@ -1529,7 +1529,27 @@ pub mod gen {
         let mut fid = rng.below(256) as u8;
         let mut tbl = table.clone();
         for _ in 0..n {
-            match rng.below(14) {
+            match rng.below(15) {
+                14 => {
+                    // start/complete packet with a readable label whose extension chain runs past the packet
+                    let l = *rng.pick(&labs[..4]);
+                    let id = (rng.range(2, 5) as u16) << 8 | rng.below(256) as u16;
+                    let need = wire::opt_ext_len(id).unwrap();
+                    let have = rng.usize_in(0, need + 1); // too short for data + next type field
+                    let mut body = vec![];
+                    let first = rng.chance(1, 3);
+                    if first {
+                        body.push(rng.below(256) as u8);
+                        body.extend_from_slice(&100u16.to_be_bytes());
+                    }
+                    body.extend_from_slice(&id.to_be_bytes());
+                    body.extend_from_slice(l.bytes());
+                    body.extend(rng.bytes(have));
+                    let h: u16 = (if first { 0b10u16 } else { 0b11 } << 14) | ((l.lt() as u16) << 12) | body.len() as u16;
+                    let mut pk = h.to_be_bytes().to_vec();
+                    pk.extend(body);
+                    ops.push(feed(pk, 10));
+                }
                 0 => ops.push(Op::new("reset")),
                 1 => ops.push(feed(junk(rng), 9)),
                 2 => ops.push(feed(vec![0u8; rng.usize_in(2, 20)], 9)),
